@@ -198,7 +198,7 @@ class SimA(Simulator):
             batch = []
             for _ in range(rng.randint(1, 4)):
                 t += rng.choice([0.0, 0.5, 1.0]) if rng.random() < 0.9 else 0.0
-                batch.append([rng.choice(msgs), rng.choice([30, 40]), round(t, 3)])
+                batch.append([rng.choice(msgs), rng.choice([30, 40, 40, 50, 50, 20]), round(t, 3)])   # also levels other than WARNING/ERROR (CRITICAL, INFO)
             ops.append(["errorlog", "E1", batch])
             r = rng.random()
             if r < 0.25:
